@@ -418,7 +418,7 @@ def run(ctx):
         elif not proved:
             ctx.violation(dict(kind="proof", property=PID, detail=getattr(ctx, "proof_failure", None)), no_input=True)
 
-    ctx.level = "other"
+    ctx.level = "proof" if proved else "other"
     ctx.cov.update({
         "evaluations": len(docs),
         "distinct_nontrivial": len(nontrivial),
@@ -458,13 +458,18 @@ EXPLANATION = (
     "C15_new_doc_wf (build and analyze keep offsets and ranges: for AnalyzedSource::new outputs doc_wf_b reduces to the name condition "
     "decls_names_b), C15_new_doc_covered (declarations + trailing slice tile the token vector), C15_new_doc_stream and "
     "C15_lexical_reported_everywhere (= part (a) of C15_full_statement without its no-diagnostics hypothesis: EVERY keyword/number/comment "
-    "token of the document is in the answer with its class). The former refutation C15_full_statement_refuted is gone with the repairs "
-    "b909979 (identifiers in type expressions of a procedure are looked up globally) and e4d8780 (trailing comments): its witness and the "
-    "witnesses of the two former known findings now evaluate to the demanded streams (Examples C15_example_type_use / _int_hidden / "
-    "_trailing, corpus/C15, FIXED_WITNESSES). NOT PROVED, VALIDATED only (correspondence + oracle): that the model is the code; "
-    "decls_names_b for parser outputs (the judge computes doc_wf_b on every case: always 1); part (b) of C15_full_statement, the "
-    "classification of every identifier by the class of its binding with the declaration bit exactly on declared names (python oracle "
-    "from splscope and the Coq statement decided per document by the judge, in agreement; no counterexample on the repaired code).")
+    "token of the document is in the answer with its class). C15_new_doc_names / C15_new_doc_wf_total: the name condition, hence doc_wf_b, "
+    "holds for the document of EVERY text (every parser output, any syntax errors), so C15_new_doc_stream_total and "
+    "C15_lexical_reported_everywhere_total state all of the above without any hypothesis. C15_valid (+ C15_valid_doc_wf): for every valid "
+    "program in every layout (abstract program of the grammar, well-typed, any text that lexes to its tokens) every identifier occurrence "
+    "is reported with the kind of the entry it is bound to under SPL scoping and the declaration modifier exactly on its declaring "
+    "occurrence, nothing else at that position - part (b), the binding half of the property. The former refutation "
+    "C15_full_statement_refuted is gone with the repairs b909979 (identifiers in type expressions of a procedure are looked up globally) "
+    "and e4d8780 (trailing comments): its witness and the witnesses of the two former known findings now evaluate to the demanded streams "
+    "(Examples C15_example_type_use / _int_hidden / _trailing, corpus/C15, FIXED_WITNESSES). NOT PROVED, VALIDATED only (correspondence + "
+    "oracle): that the model is the code; the wording `document without diagnostics` instead of `layout of a well-typed abstract program` "
+    "(front-end completeness); documents reached by incremental updates (C01's known finding). The judge still computes doc_wf_b and the "
+    "Coq full statement per document and the python oracle from splscope must agree.")
 
 
 def replay(ctx, path):
